@@ -129,6 +129,11 @@ def _vm_goal(case, out):
         for _ in range(int(t.next())):
             h, f = t.next(), t.next()
             creds.append("(%s, mkCred %s)" % (h, " ".join("true" if c == "1" else "false" for c in f)))
+        ptable = []
+        for _ in range(int(t.next())):
+            hdr, sch, realm, service, scope = t.next(), t.next(), t.next(), t.next(), t.next()
+            sch = {"basic": "SchBasic", "bearer": "SchBearer"}.get(sch, "SchUnknown")
+            ptable.append("(%s, (%s, [(s_realm, %s); (s_service, %s); (s_scope, %s)]))" % (_cstr(hdr), sch, _cstr(realm), _cstr(service), _cstr(scope)))
         hist = []
         for _ in range(int(t.next())):
             h = t.next()
@@ -160,7 +165,7 @@ def _vm_goal(case, out):
                     else:
                         sends.append("POAuth %s %s %s %s %s" % (h, _cstr(realm), _cstr(service), _cstr(scopes), _csecret(last)))
             exp.append("([%s], %s)" % ("; ".join(sends), res))
-        return "proj_run (run_model %s %s [%s] [%s]) = [%s]" % (fl, oauth2, "; ".join(creds), "; ".join(hist), "; ".join(exp))
+        return "proj_run (run_model %s %s [%s] [%s] [%s]) = [%s]" % (fl, oauth2, "; ".join(creds), "; ".join(ptable), "; ".join(hist), "; ".join(exp))
     return None
 
 
@@ -223,19 +228,25 @@ CONFIG = {
     "case_to_replay": _c16_case,
     "post_model": _c16_vm_sample,
     "assumptions": [
-        "Credential(ctx, hostport) returns the credential OF hostport (the model's SBasicTok/SUserPass/SRefresh/SAccess h are tainted with the host they were asked for); a CredentialFunc that ignores its argument is a configuration outside the theorems",
-        "the servers are unconstrained: theorems quantify over every answer script (status, Www-Authenticate header bytes, token endpoint outcome); a token returned by the token endpoint during a request to h is by definition h's token (SIssued h id)",
-        "requests that already carry an Authorization header are passed through unmodified (first lines of Client.Do) and are not modelled",
-        "a send that gets no response (transport error of the underlying http.Client, or the request context cancelled at that moment) is the answer AErr of the model; cancellation while WAITING on another request's in-flight fetch is covered by the Once/CacheSet systems and the concurrent mixes, not by the sequential model; net/http redirect handling (header stripping on cross-host redirects) is not modelled",
+        "Credential(ctx, hostport) returns the credential OF hostport (the model's SBasicTok/SUserPass/SRefresh/SAccess h are tainted with the host they were asked for); a CredentialFunc that ignores its argument, or returns an error, is outside the theorems (an error is not generated either)",
+        "ONE host per request: the model's host is http.Request.Host, which Client.Do uses for credentials, cache and scope hints; the wire destination is Request.URL.Host. The theorems say nothing about a caller that sets Host to one registry and URL.Host to ANOTHER (the credentials of Host then travel to URL.Host: caller inconsistency, outside the property's quantifier). The harness generates Host != URL.Host only as another address (alias) of the same registry, with credentials configured for the name only; correspondence and oracle cover it",
+        "the servers are unconstrained: theorems quantify over every answer script (status, Www-Authenticate header bytes, token endpoint outcome, no response) AND over every total challenge parser (parse is a parameter of do_request; no theorem depends on Model/Challenge.v); a token returned by the token endpoint during a request to h is by definition h's token (SIssued h id)",
+        "Model/Challenge.v (used by the runner only) models strconv.QuotedPrefix/Unquote for quoted strings without bytes >= 0x80 and with the escapes backslash-backslash and backslash-quote; for other headers the history case line carries what the real parseChallenge returned (parse_with) and the oracle compares that with the parameters the header was rendered from (challenge-params), so the flow after such a header is still compared; pure C cases outside the subset are UNJUDGED by the model and judged by the same ground truth",
+        "a Bearer challenge without realm, or with an unparsable/relative realm: the model emits the token request (realm = empty string is trivially 'advertised'), Go fails before sending; harmless over-approximation, not generated",
+        "scope hints are caller input: a hint that is empty or contains a space is outside the property (the protocol cannot express it; C16_cache_key_space_refuted shows that it aliases the cache key of another scope set); such hints ARE generated and compared with the model, the clause 'reused only for the same canonical scope set' is claimed for key-safe scopes (C16_cache_key_injective) and for the shared cache only: the single-context cache ignores scopes by design (C16_single_context_cache)",
+        "requests that already carry an Authorization header are passed through unmodified (first lines of Client.Do): not a model request; generated, judged by the oracle (exactly one send, header unchanged) and by the following requests of the history (the cache must not have learned anything)",
+        "redirects are followed by net/http below auth.Client, not by the modelled code: the harness answers 3xx (registry -> other registry / same host name other port / alias; token realm -> other host), scans the follow-up requests and reports the two known findings redirect-other-port-keeps-authorization and redirect-token-request-resent by mechanism (request created by a redirect + same host name resp. re-sent token request); a 401 from a redirect target is not generated (the model would treat it as the registry's own answer)",
+        "a send that gets no response (transport error of the underlying http.Client, or the request context cancelled at that moment) is the answer AErr of the model; cancellation while WAITING on another request's in-flight fetch is covered by the Once/CacheSet systems and the concurrent mixes, not by the sequential model",
         "thorough tier: about 310 sampled correspondence cases (all case kinds) are re-evaluated inside Coq with vm_compute against the extracted runner's output (post_model hook)",
-        "strconv.QuotedPrefix/Unquote is modelled for quoted strings without backslash and without bytes >= 0x80 (other headers are UNJUDGED in the correspondence and outside C16_no_cross_host only through parse_challenge, which the theorems treat as an arbitrary function of the header)",
-        "encoding/json, encoding/base64, net/url query/form encoding of the token requests are observed by the harness (decoded on the fake token server) but not modelled",
+        "encoding/json, encoding/base64, net/url query/form encoding of the token requests are observed by the harness (decoded on the fake token server) but not modelled; the 'for which host' component of a token-request event is supplied by the harness (the request being served), not observed on the wire: realm, service, scopes and grant are observations",
         "syncutil.Once: the Go select/channel semantics are the LTS of Model/Once.v (buffered-1 channel holding true / empty / closed); runtime scheduling is quantified over as arbitrary interleavings of the visible events; panics inside f are not modelled",
-        "concurrentCache.Set under concurrency is the transition system of Model/CacheSet.v (status map, Once instances, results; status.Delete over-approximated). Recorded executions of Set (direct and inside concurrent Client.Do mixes) are accepted by the extracted system: fetch start/end, delivered results and the identity of the in-flight entry (hook VerifInFlight) are observed; LoadOrStore/Delete are hidden and placed by the harness at the latest point the observations allow (documented in harness/cmd/c16/settrace.go)",
-        "executions in which a delivered token/error cannot be attributed to exactly one fetch (Basic tokens, static access tokens, sentinel errors) are not judged by the Set trace acceptor (counted as settrace/*/unjudged)",
+        "CONCURRENCY: the theorems about Client.Do (no cross host, budget, valid => non-401) are sequential; there is no Coq composition of CacheSet with do_request. For concurrent mixes these clauses are oracle-only (cross-host scan, <= 3 sends and <= 1 token fetch PER request, valid => ok, foreign-cancellation); the sharing clause is the Once/CacheSet theorems tied by accepted traces",
+        "concurrentCache.Set under concurrency is the transition system of Model/CacheSet.v (status map, Once instances, results; status.Delete over-approximated). Recorded executions of Set (direct and inside concurrent Client.Do mixes) are accepted by the extracted system: fetch start/end, delivered results and the identity of the in-flight entry (hook VerifInFlight, which recomputes the status key with a copy of the formula) are observed; LoadOrStore/Delete are hidden and PLACED by the harness at the latest point the observations allow, so acceptance means 'a consistent linearisation exists', not 'this was the order' (harness/cmd/c16/settrace.go)",
+        "executions in which a delivered token/error cannot be attributed to exactly one fetch (Basic tokens, static access tokens, sentinel errors -- i.e. the long-lived secrets) are not judged by the Set trace acceptor (counted as settrace/*/unjudged; the harness fails if they exceed a quarter of the mixes); for them only the oracle applies",
+        "C16_valid_credentials_succeed states 'valid credentials' on the outcome trace (no refused token request, no failed send, no 401 on a fresh send, no missing credential): it is the completeness of the outcome classification of C16_budget, not a statement about a server model",
     ],
     "level_text": "Coq theorems: CleanScopes is sorted, duplicate-free, idempotent, depends only on the set of its input (order/duplication/map-iteration-order insensitive) and '*' absorbs, for all byte strings; over every history of Client.Do calls with any cache flavour, credential table and server behaviour every send goes to the request's host or to a realm that host advertised and carries only that host's secrets, a Basic header reaches a host only after its Basic challenge, the cache stays host-tainted; <= 3 registry sends and <= 1 token fetch per call with a complete classification of non-success outcomes (valid credentials => the registry's non-401 answer); cache-key laws for the shared and the single-context cache; syncutil.Once as an LTS: one published result shared by all receivers, one fetch in flight, hand-over on cancellation",
-    "level_note": "four defects fixed (two in CleanScopes, two in the single-context cache's Set) (duplicates of unparsable scopes; single-scope fast path disagreeing with the general path); concurrent Set executions are accepted by the CacheSet transition system (hidden map operations placed by the harness); the Go runtime is exercised, not proved; strconv.Unquote escapes are outside the challenge model",
+    "level_note": "clause 'cached token only for the same scope set': shared cache + key-safe scopes only (single-context cache ignores scopes by design; hints with spaces alias, refuted witness); concurrent Client.Do: oracle-only for clauses 1-3; redirects: two known findings of net/http's policy below the auth client; five defects fixed (two in CleanScopes, two in the single-context cache's Set) (duplicates of unparsable scopes; single-scope fast path disagreeing with the general path); concurrent Set executions are accepted by the CacheSet transition system (hidden map operations placed by the harness); the Go runtime is exercised, not proved; strconv.Unquote escapes are outside the challenge model",
     "technique": "machine-checked proof in Coq (invariants over histories, trace-acceptor LTS for Once, canonical-form algebra for scope sets) + translator-regenerated anchors/constants + model/implementation correspondence + independent oracle",
     "explanation": "theorems about executable models of scope.go, challenge.go, client.go, cache.go and syncutil/once.go; the extracted models are run against the real code on generated scope lists, challenge headers, request histories over 2-4 in-process registries/token servers with marker secrets, and Once traces; an independent oracle scans every outgoing request for foreign secrets and checks budget, validity, algebraic laws of CleanScopes and result sharing",
 }
